@@ -54,8 +54,8 @@ class Build:
         self.lock = threading.Lock()
         self.translations = []
 
-    def unit(self, harness, defines=(), opt='-O1', ub=False, redirect=(), footprint=False, extra_src=()):
-        key = (harness, tuple(defines), opt, ub, tuple(redirect), footprint, tuple(extra_src))
+    def unit(self, harness, defines=(), opt='-O1', ub=False, redirect=(), footprint=False, extra_src=(), vcall=()):
+        key = (harness, tuple(defines), opt, ub, tuple(redirect), footprint, tuple(extra_src), tuple(vcall))
         with self.lock:
             if key in self.cache:
                 return self.cache[key]
@@ -85,6 +85,8 @@ class Build:
             cmd.append('--footprint')
         for r in redirect:
             cmd += ['--redirect', r]
+        for r in vcall:
+            cmd += ['--vcall', r]
         rc, out, err, dt = sh(cmd, timeout=600)
         if rc != 0:
             raise InternalError('ir2c failed for %s: %s' % (harness, err[-3000:]))
@@ -124,11 +126,24 @@ class Build:
         rc, out, err, dt = sh(['gcc', '-O1', '-w', '-c', '-I' + os.path.join(VERIF, 'rt'), os.path.join(VERIF, 'rt', 'rt.c'), '-o', obj_rt], timeout=120)
         if rc != 0:
             raise InternalError('gcc rt failed: ' + err[-2000:])
-        cmd = [CLANG] + CXXFLAGS + ['-D' + d for d in unit['defines']] + ['-O1', '-fexceptions', unit['src'], mainc, obj_rt,
-                                                                          '-nostdlib++', '-lsupc++', '-o', exe]
+        obj_h = exe + '.h.o'
+        cmd = [CLANG] + CXXFLAGS + ['-D' + d for d in unit['defines']] + ['-O1', '-fexceptions', '-c', unit['src'], '-o', obj_h]
         rc, out, err, dt = sh(cmd, timeout=600)
         if rc != 0:
             raise InternalError('native C++ harness build failed: ' + err[-3000:])
+        # environment models: the harness defines ext_<name>; route the harness object's references to <name> there
+        # (only in this object: libc keeps its own write/close/... for stdio)
+        exts = set(re.findall(r'^define [^@]*@ext_([A-Za-z0-9_]+)\(', open(unit['ll']).read(), re.M))
+        if exts:
+            args = []
+            for n in sorted(exts):
+                args += ['--redefine-sym', '%s=ext_%s' % (n, n)]
+            rc, out, err, dt = sh(['objcopy'] + args + [obj_h], timeout=60)
+            if rc != 0:
+                raise InternalError('objcopy failed: ' + err[-1000:])
+        rc, out, err, dt = sh([CLANG, '-std=c++14', '-O1', '-fexceptions', mainc, obj_h, obj_rt, '-nostdlib++', '-lsupc++', '-o', exe], timeout=300)
+        if rc != 0:
+            raise InternalError('native C++ harness link failed: ' + err[-3000:])
         return exe
 
 
@@ -246,7 +261,7 @@ class Obl:
 
     def __init__(self, name, harness, entry, unwind=8, defines=(), unwindset=(), tiers=('quick', 'thorough'), timeout=900,
                  mem_gb=12, opt='-O1', ub=False, redirect=(), witness=True, desc='', bounds=None, functions=(), kind='cbmc',
-                 extra=(), footprint=False, defines_thorough=None, unwind_thorough=None, smt=None, public_replay=None):
+                 extra=(), footprint=False, defines_thorough=None, unwind_thorough=None, smt=None, public_replay=None, vcall=()):
         self.__dict__.update(locals())
         del self.__dict__['self']
 
@@ -259,7 +274,7 @@ def run_obligation(build, ob, tier, replay_dir, prop):
          'bounds': ob.bounds or {}, 'solver': 'cbmc 6.11 (cadical)'}
     t0 = time.time()
     try:
-        unit = build.unit(ob.harness, defines, ob.opt, ob.ub, ob.redirect, ob.footprint)
+        unit = build.unit(ob.harness, defines, ob.opt, ob.ub, ob.redirect, ob.footprint, (), ob.vcall)
         res, out = run_cbmc(unit['c'], ob.entry, unwind, ob.unwindset, ob.timeout, ob.mem_gb, ob.extra)
         r['cbmc'] = {k: res[k] for k in ('time_s', 'status') if k in res}
         r['cbmc']['properties'] = res.get('properties', 0)
@@ -310,7 +325,7 @@ def run_obligation(build, ob, tier, replay_dir, prop):
             r['status'] = 'holds'
         # witness twin: must be violated, and only at the WITNESS assertion
         if ob.witness and r['status'] == 'holds':
-            wunit = build.unit(ob.harness, defines + ['WITNESS'], ob.opt, ob.ub, ob.redirect, ob.footprint)
+            wunit = build.unit(ob.harness, defines + ['WITNESS'], ob.opt, ob.ub, ob.redirect, ob.footprint, (), ob.vcall)
             wres, wout = run_cbmc(wunit['c'], ob.entry, unwind, ob.unwindset, ob.timeout, ob.mem_gb, ob.extra)
             queries += 1
             wf = [f for f in wres.get('failed', []) if 'WITNESS' in f['desc']]
@@ -359,7 +374,7 @@ def translation_validation(build, obls, tier, seeds):
         if key in done:
             continue
         done[key] = 1
-        unit = build.unit(ob.harness, defines, ob.opt, ob.ub, ob.redirect)
+        unit = build.unit(ob.harness, defines, ob.opt, ob.ub, ob.redirect, False, (), ob.vcall)
         ce = build.native_c(unit, ob.entry)
         xe = build.native_cxx(unit, ob.entry)
         progs += 1
